@@ -616,6 +616,13 @@ func cmdDump(args []string) int {
 	}
 	w := NewWorld(*repo)
 	for _, sf := range specs {
+		if strings.HasPrefix(sf.Name, "extern:") {
+			w.externFrames[strings.TrimPrefix(sf.Name, "extern:")] = sf.Reason
+			if sf.Lemma {
+				w.externFresh[strings.TrimPrefix(sf.Name, "extern:")] = true
+			}
+			continue
+		}
 		w.specFns[sf.Name] = sf
 	}
 	need := map[string]bool{}
